@@ -76,7 +76,7 @@ CHECKS = {
              "Tie: real IntoResponse on thousands of generated Response<Empty> (12 message shapes) vs model and vs field-wise equality.",
         design="§8 C11",
         technique="Lean 4 proof (list induction) over a kind table regenerated from source + L3 differential",
-        note=TB + " The dispatch arms that insert into_response / into_empty for `: custom(..)` interfaces are templates recognised by the translator; their behaviour in compiled custom contracts is not yet in the corpus (partial for that clause)."),
+        note=TB + " The dispatch arms that insert into_response / into_empty for `: custom(..)` interfaces are exercised on four compiled configurations (custom msg / query on or off) through the generated execute, sudo and query entry points (stream L2-custom-contracts), not proved."),
     "C20": dict(
         text="Machine-checked proof on the model of Remote: encoding is the single-member object {addr}, independent of the type index and of owned/borrowed; decode(encode r) "
              "gives the same address under any type index; schema name constant. Tie: real to_json_string/from_json/schema_for! for six type parameters (concrete, generic, "
